@@ -100,6 +100,7 @@ Check(mm, cond, p, code, e, detail) == IF cond THEN mm ELSE Report(mm, p, code, 
 M0 == [ reqs |-> EmptyFn,   \* request id -> record (parameters, st \in {"open","queued","done"}, tq)
         holds |-> EmptyFn,  \* <<db,key>> -> sequence of outstanding holds, oldest first
         wq |-> EmptyFn,     \* <<db,key>> -> ids of queued lock requests in arrival order
+        taint |-> {},       \* <<key, lid>> pairs with two hold records for one LockId (finding A12): depth is ambiguous there
         nv |-> 0, t |-> 0, tr |-> 0, name |-> "", seq |-> TRUE, status |-> 1 ]
 
 NewHold(r, t) == [ lid |-> r.lid, depth |-> 1, cnt |-> r.cnt, rc |-> r.rc, rids |-> {r.id},
@@ -155,7 +156,7 @@ CheckCounts(mm, e, k) ==
                     [rid |-> e.rid, res |-> e.res, lc |-> e.lc, truth |-> DepthSum(H)])
         \* (the concurrent-check fast path answers TIMEOUT before looking at the LockId: not judged)
         fast == e.res = TIMEOUT /\ e.rid \in DOMAIN mm.reqs /\ Bit(mm.reqs[e.rid].flag, F_CONC)
-        m2 == Check(m1, fast \/ e.lrc = d % 256, "C17", "reply-lrcount-wrong", e,
+        m2 == Check(m1, fast \/ <<k, e.lid>> \in mm.taint \/ e.lrc = d % 256, "C17", "reply-lrcount-wrong", e,
                     [rid |-> e.rid, res |-> e.res, lrc |-> e.lrc, truth |-> d])
     IN m2
 
@@ -185,16 +186,20 @@ LockSucced(mm, e, r, k) ==
         m0 == IF wasQueued THEN DropFromWq(CheckGrantOrder(mm, e, r, k), k, r.id) ELSE mm
     IN
     IF r.ex = 0 THEN m0      \* success without a hold (a zero-expiry hold ends at once)
-    ELSE IF i = 0
+    ELSE IF i = 0 \/ wasQueued
     THEN \* new holder: the C01 clause
-         LET m1 == Check(m0, AdmissibleStmt(H, r.cnt), "C01", "grant-exceeds-count", e,
+         \* (a QUEUED request granted while its LockId already holds the key is a second grant to that
+         \*  LockId, not a re-lock: C02 allows at most Rcount further successes - reported under its own code)
+         LET mq == Check(m0, i = 0, "C02", "queued-request-granted-to-holding-lockid", e,
+                         [rid |-> r.id, key |-> r.key, lid |-> r.lid, rc |-> r.rc])
+             m1 == Check(mq, AdmissibleStmt(H, r.cnt), "C01", "grant-exceeds-count", e,
                          [rid |-> r.id, key |-> r.key, lid |-> r.lid, cnt |-> r.cnt, outstanding |-> DepthSum(H),
                           oldest |-> IF H = <<>> THEN -1 ELSE Head(H).cnt])
-         IN [m1 EXCEPT !.holds = SetFn(@, k, Append(H, NewHold(r, e.t)))]
+         IN [m1 EXCEPT !.holds = SetFn(@, k, Append(H, NewHold(r, e.t))),
+                       !.taint = IF i = 0 THEN @ ELSE @ \cup {<<k, r.lid>>}]
     ELSE \* re-lock by the holder: depth + 1, terms restart (C02 clause: at most Rcount more times)
          LET h  == H[i]
-             m1 == Check(m0, ~wasQueued, "C02", "queued-relock-granted-to-holder", e, [rid |-> r.id])
-             m2 == Check(m1, h.depth <= r.rc /\ h.depth < 255 /\ ~Bit(r.tf, TF_PRIO), "C02", "relock-beyond-rcount", e,
+             m2 == Check(m0, h.depth <= r.rc /\ h.depth < 255 /\ ~Bit(r.tf, TF_PRIO), "C02", "relock-beyond-rcount", e,
                          [rid |-> r.id, lid |-> r.lid, depth |-> h.depth, rc |-> r.rc])
              nh == [h EXCEPT !.depth = @ + 1, !.cnt = r.cnt, !.rc = r.rc, !.rids = {r.id},
                              !.lo = IF Bit(r.ef, EF_UNLIMITED) THEN INF ELSE e.t + ExpriedS(r),
@@ -292,8 +297,11 @@ UnlockRefused(mm, e, r, k) ==
 UnlockCancelled(mm, e, r, k) ==
     LET Q == WqOf(mm, k)
         victims == {id \in {Q[j] : j \in 1..Len(Q)} : mm.reqs[id].lid = r.lid}
-    IN Check(mm, Bit(r.flag, UF_CANCEL) /\ victims # {}, "C02", "cancel-reported-without-queued-request", e,
-             [rid |-> r.id, lid |-> r.lid])
+        m1 == Check(mm, Bit(r.flag, UF_CANCEL) /\ victims # {}, "C02", "cancel-reported-without-queued-request", e,
+                    [rid |-> r.id, lid |-> r.lid])
+       \* the cancelled request left the queue in this critical section; its own UNLOCK_ERROR reply is sent after
+       \* the canceller's and may be overtaken by other sections under concurrency
+    IN [m1 EXCEPT !.wq = IF k \in DOMAIN @ THEN [@ EXCEPT ![k] = SelectSeq(@, LAMBDA x : x \notin victims)] ELSE @]
 
 StepUnlockReply(mm, e, r, k) ==
     LET m1 == Check(mm, r.st # "done", "C03", "second-terminal-reply", e, [rid |-> r.id, res |-> e.res])
